@@ -625,8 +625,12 @@ class DeserializationMethodVisitor(
                     if fact.cls is not NoneType
                 )
                 return OptionalMethod(value_method, self.coercer)
-            elif len(method_by_cls) == len(alt_factories) and not any(
-                isinstance(x, CoercerMethod) for x in alt_methods
+            elif (
+                len(method_by_cls) == len(alt_factories)
+                # an integer is also accepted by a float alternative: dispatching on
+                # the exact class of data would skip it
+                and float not in method_by_cls
+                and not any(isinstance(x, CoercerMethod) for x in alt_methods)
             ):
                 # Coercion induces a different type in data than type to deserialize.
                 # Prefer UnionMethod in this case.
